@@ -309,8 +309,26 @@ func (c *CCtx) binary(n Binary) CVal {
 	case "<==>":
 		return boolean("(= %s %s)", a.T, b.T)
 	case "&&":
+		if b.T == "false" {
+			return boolean("false")
+		}
+		if a.T == "true" {
+			return b
+		}
+		if b.T == "true" {
+			return a
+		}
 		return boolean("(and %s %s)", a.T, b.T)
 	case "||":
+		if b.T == "true" {
+			return boolean("true")
+		}
+		if a.T == "false" {
+			return b
+		}
+		if b.T == "false" {
+			return a
+		}
 		return boolean("(or %s %s)", a.T, b.T)
 	case "==", "!=":
 		var t string
